@@ -182,7 +182,7 @@ def gen_cases(c):
     return cases
 
 
-def run_parallel(c, rng, work, recs, jobs, gz, inputs, gz_input=False):
+def run_parallel(c, rng, work, recs, jobs, gz, inputs, gz_input=False, child=("cat",)):
     names = []
     if inputs:
         k = len(recs) // inputs
@@ -192,13 +192,13 @@ def run_parallel(c, rng, work, recs, jobs, gz, inputs, gz_input=False):
             data = b"".join(part)
             open(nm, "wb").write(gzip.compress(data) if gz_input else data)
             names.append(nm)
-        argv_ = [repo_bin("warc_parallel"), "-j", str(jobs)] + (["-z"] if gz else []) + ["-i"] + names + ["--", "cat"]
+        argv_ = [repo_bin("warc_parallel"), "-j", str(jobs)] + (["-z"] if gz else []) + ["-i"] + names + ["--"] + list(child)
         stdin = b""
     else:
-        argv_ = [repo_bin("warc_parallel"), "-j", str(jobs)] + (["-z"] if gz else []) + ["cat"]
+        argv_ = [repo_bin("warc_parallel"), "-j", str(jobs)] + (["-z"] if gz else []) + list(child)
         stdin = b"".join(recs)
     st, so, se = run_tool(argv_, stdin=stdin, timeout=25)
-    how = "warc_parallel -j %d %s%s cat   (%d records, %d bytes)" % (jobs, "-z " if gz else "", ("-i %d files%s --" % (inputs, " (gz)" if gz_input else "")) if inputs else "<stdin", len(recs), sum(len(r) for r in recs))
+    how = "warc_parallel -j %d %s%s %s   (%d records, %d bytes)" % (jobs, "-z " if gz else "", ("-i %d files%s --" % (inputs, " (gz)" if gz_input else "")) if inputs else "<stdin", " ".join(child), len(recs), sum(len(r) for r in recs))
     rep = {"op": "warc_parallel", "how": how, "jobs": jobs, "gzip": gz, "inputs": inputs, "status": st,
            "records_hex": [r.hex() for r in recs[:6]] if sum(len(r) for r in recs[:6]) < 3000 else "large", "stderr": se.decode("utf-8", "replace")[-200:]}
     if st != 0:
@@ -243,6 +243,8 @@ def main(argv):
         c.broken.append("build of the repo working tree failed: " + blog[-800:])
         return c.finish(rule="build failed")
     c.proofs(extra_trusted=["independent strict WARC framing parser py_parse in checks/C17.py", "Python gzip/zlib as independent codecs"])
+    if c.tier == "thorough":
+        coqchk(c)
     drv, dlog = build_driver("C17")
     impl = hx_bin("hx_warc")
     rng = c.rng
@@ -253,7 +255,7 @@ def main(argv):
     c.sample({"case": lines[0][:300]})
     c.sample({"case": lines[len(lines) // 2][:300]})
     c.sample({"case": lines[-40][:300]})
-    results, _ = codeclog.run_logged(impl, lines, timeout_case=10, preload=False)
+    results, _ = codeclog.run_logged(impl, lines, timeout_case=20, preload=False, max_bad=4)
 
     # --- correspondence with the extracted model (for compressed input: the model
     #     reads the decompressed stream; by C17_records_exact the fragmentation is irrelevant)
@@ -299,6 +301,11 @@ def main(argv):
                 if got != recs_str(want):
                     c.violation("records-before-error-wrong: %s: expected %d intact records before the error, got %s" % (x["bucket"], len(want), res[:80]), rep)
 
+    # --- thorough: the same cases through the ASan+UBSan build of the harness (reads outside the
+    #     buffers, e.g. the trailer test of a record shorter than 4 bytes, show up here)
+    if c.tier == "thorough":
+        asan_lines(c, "hx_warc", [l for l in lines if len(l) < 400000], what="(WARCReader)")
+
     # --- warc_parallel: every record exactly once and intact, any -j, -z one member per record
     work = os.path.join(codeclog.scratch_dir(), "c17-%d" % os.getpid())
     shutil.rmtree(work, ignore_errors=True)
@@ -325,13 +332,22 @@ def main(argv):
     if c.tier == "thorough":
         for _ in range(40):
             runs.append((rng.randrange(1, 17), rng.random() < 0.5, rng.choice((0, 0, 1, 3)), rng.random() < 0.3, make_records(rng.randrange(1, 400), rng.choice((100, 5000, 100000)))))
+    # many tiny records, all workers emitting at once: contention on the shared output stream
+    runs.append((8, False, 0, False, make_records(4000, 60)))
+    runs.append((6, True, 2, False, make_records(1500, 60)))
+    # an identity child that re-chunks its output (7-byte writes): the collector's WARCReader sees the
+    # records of the child in small fragments
+    runs.append((2, False, 0, False, make_records(25, 400), ("dd", "bs=7", "status=none")))
+    runs.append((3, True, 0, False, make_records(25, 400), ("dd", "bs=4099", "status=none")))
     hangs = 0
-    for jobs, gz, inputs, gzin, recs in runs:
-        c.count(("parallel", jobs, gz, inputs, len(recs)), bucket="warc_parallel/j=%d/%s/%s" % (jobs, "gz-out" if gz else "plain-out", "files" if inputs else "stdin"))
+    for run in runs:
+        jobs, gz, inputs, gzin, recs = run[:5]
+        child = run[5] if len(run) > 5 else ("cat",)
+        c.count(("parallel", jobs, gz, inputs, len(recs), child), bucket="warc_parallel/j=%d/%s/%s%s" % (jobs, "gz-out" if gz else "plain-out", "files" if inputs else "stdin", "" if child == ("cat",) else "/child=" + child[0]))
         if hangs >= 2:
             c.broken.append("warc_parallel runs skipped after two hangs")
             break
-        if run_parallel(c, rng, work, recs, jobs, gz, inputs, gzin) == "timeout":
+        if run_parallel(c, rng, work, recs, jobs, gz, inputs, gzin, child) == "timeout":
             hangs += 1
     shutil.rmtree(work, ignore_errors=True)
 
